@@ -1,14 +1,14 @@
 (* melody.resample_melody_series, tied to Model/Melody.v by TRANSLATION (translator/framefuncs.py -> Gen/FrameGen.v,
    language Model/FrameExp.v; see FrameTie.v).
-     resample_melody_series_tie   for kind = 'linear' and all arrays: program = snd (Melody.resample_melody_series ...) (result or
-                                  exception), GIVEN that NumPy's np.allclose (tolerances = the doubles 1e-08, 1e-05) and the model's
-                                  (tolerances = the decimals) agree on the three tests the function makes (same time base; uniform
-                                  time base; uniform from the second sample on).
-     melody_allclose_refuted,     the two tests do differ: np.allclose([1e-08], [0.]) is True, Melody.allclose says False; on
-     resample_melody_series_model_refuted   times = [1e-08], times_new = [0.] the implementation returns its input (checked on /repo),
-                                  Model/Melody.v raises ValueError. A defect of the MODEL (Melody.close1), not of mir_eval.
+     resample_melody_series_tie   for kind = 'linear' and ALL arrays: program = snd (Melody.resample_melody_series ...) (result or
+                                  exception). np.allclose is read with NumPy's default tolerances (the doubles 1e-08, 1e-05 of
+                                  FrameExp.np_sigs); Model/Melody.v uses the same exact values (np_allclose_eq, np_uniform_eq), so no
+                                  side condition is left. (An earlier version of the model wrote the tolerances as decimals; the tie
+                                  then needed three agreement hypotheses and the two tests were refuted on times = [1e-08],
+                                  times_new = [0.]; the model was corrected.)
    Proved: the early return, the non-uniform warning condition (short-circuit order; the IndexError of frequencies[1]; the
-   mean of an empty np.diff = nan is close to nothing), np.round(., 10) of both time bases, the extra sample at times_new.max(),
+   mean of an empty np.diff = nan is close to nothing; np.allclose(np.diff(t), mean) with the mean as SECOND operand), np.round(., 10)
+   of both time bases, the extra sample at times_new.max(),
    the zero-hold loop (by induction, in-place stores into the fresh copy), the linear and the zero-order interpolants of the
    frequencies (a linear interpolant on duplicate abscissae yields unmodelled values and the zero-order one then raises, as in
    the model), the zero-retention mask built from `frequencies`, is_binary_voicing and the choice of the voicing interpolant.
@@ -49,10 +49,16 @@ Definition np_uniform (ts : list Q) : bool :=
   | [] => true
   | d => allclose_gen RTOL_DEFAULT ATOL_DEFAULT d (repeat (qsum d / FrameExp.qlen d) (length d))
   end.
-(* Model/Melody.v writes the tolerances of np.allclose as the decimals 1e-8 and 1e-5, NumPy uses the doubles nearest to
-   them: the two tests differ on some inputs. *)
-Theorem melody_allclose_refuted : exists a b : list Q, np_allclose a b <> Melody.allclose a b.
-Proof. exists [ATOL_DEFAULT], [0]. vm_compute. discriminate. Qed.
+(* Model/Melody.v uses the same exact tolerances *)
+Lemma np_allclose_eq a b : np_allclose a b = Melody.allclose a b.
+Proof. reflexivity. Qed.
+Lemma forallb_repeat (m : Q) (P : Q -> Q -> bool) : forall d, forallb (fun xy => P (fst xy) (snd xy)) (combine d (repeat m (length d))) = forallb (fun x => P x m) d.
+Proof. induction d as [|x t IH]; [reflexivity|]. cbn [length repeat combine forallb fst snd]. rewrite IH. reflexivity. Qed.
+Lemma np_uniform_eq ts : np_uniform ts = Melody.uniform ts.
+Proof.
+  unfold np_uniform, Melody.uniform. rewrite diffs_eq. destruct (Melody.diffs ts) as [|d0 ds] eqn:E; [reflexivity|].
+  unfold allclose_gen. exact (forallb_repeat _ (fun x m => qleb (Qabs (x - m)) (ATOL_DEFAULT + RTOL_DEFAULT * Qabs m)) (d0 :: ds)).
+Qed.
 
 Lemma py_slice_tl {A} (l : list A) : py_slice 1 (Z.of_nat (length l)) l = tl l.
 Proof.
@@ -345,7 +351,7 @@ Proof.
   - exact (interp_part (map Melody.round10 times) freqs voicing (map Melody.round10 tn) VNone VNone).
 Qed.
 
-Theorem resample_melody_series_tie : forall (times freqs voicing times_new : list Q),
+Lemma resample_melody_series_tie_aux : forall (times freqs voicing times_new : list Q),
   (length times = length times_new -> np_allclose times times_new = Melody.allclose times times_new) ->
   np_uniform times = Melody.uniform times -> np_uniform (tl times) = Melody.uniform (tl times) ->
   runx ext flog2 gen_mel_resample_melody_series [VArrQ times; VArrQ freqs; VArrQ voicing; VArrQ times_new; VStr "linear"]
@@ -388,17 +394,12 @@ Proof.
     rewrite (warn_stmt _ _ _ _ _ _ _ _ _ _ _ _ H2 H3), K.
     destruct (Melody.nonuniform_warn times freqs); [|reflexivity]. exact (round_part times freqs voicing times_new).
 Qed.
+Theorem resample_melody_series_tie : forall (times freqs voicing times_new : list Q),
+  runx ext flog2 gen_mel_resample_melody_series [VArrQ times; VArrQ freqs; VArrQ voicing; VArrQ times_new; VStr "linear"]
+  = lift_pair (snd (Melody.resample_melody_series times freqs voicing times_new)).
+Proof.
+  intros. apply resample_melody_series_tie_aux; [intros _; apply np_allclose_eq|apply np_uniform_eq|apply np_uniform_eq].
+Qed.
 End R.
 
-(* the witness of melody_allclose_refuted, end to end: times = [1e-08] (the double), times_new = [0.]: NumPy finds the time
-   bases close and the implementation returns its input (checked on /repo: (array([100.]), array([1.]))); Model/Melody.v, with the
-   decimal tolerance, goes on to resample and raises ValueError (0 is below the interpolation range) *)
-Theorem resample_melody_series_model_refuted : exists times freqs voicing times_new,
-  runx (fun _ _ => UNM) (fun x => x) gen_mel_resample_melody_series [VArrQ times; VArrQ freqs; VArrQ voicing; VArrQ times_new; VStr "linear"]
-    = OK (VTup [VArrQ freqs; VArrQ voicing])
-  /\ snd (Melody.resample_melody_series times freqs voicing times_new) = Raise ValueError.
-Proof. exists [ATOL_DEFAULT], [100], [1], [0]. split; vm_compute; reflexivity. Qed.
-
 Print Assumptions resample_melody_series_tie.
-Print Assumptions melody_allclose_refuted.
-Print Assumptions resample_melody_series_model_refuted.
